@@ -55,6 +55,14 @@ STYLES['modernisation'] = ('the change should look like a modernisation / clean-
                            'a loop by a comprehension or a stdlib helper, a hand-written parser by a regex or the other way round - where the replacement is subtly not equivalent')
 STYLES['feature'] = ('the change should look like a small new feature or option - a new keyword argument with a default, a new config key, support for one more argument type, '
                      'a convenience alias - whose default path is almost, but not exactly, what it was before')
+STYLES['exception_safety'] = ('the violation should be one of exception safety: an operation that raises half-way (a refused value, a failing callback, a parse error, a full disk) '
+                              'leaves an object half-updated, and it is the *next*, perfectly ordinary use of that object that goes wrong')
+STYLES['ordering'] = ('the violation should come from two steps done in the wrong order or at the wrong moment: validation after the mutation instead of before, a cache filled before the value is final, '
+                      'a hook or callback run one step too early or too late, a lookup done before a normalisation that used to precede it, first-wins turned into last-wins')
+STYLES['sentinel'] = ('the violation should come from confusing two "nothing" values or a changed default: None vs empty string vs 0 vs a missing key vs -1, `is None` turned into a truthiness test or the '
+                      'other way round, `dict.get(k) or default`, an empty list that is falsy, a default argument evaluated once')
+STYLES['sibling_slip'] = ('the violation should be a copy-and-paste slip between two sibling branches or two similarly named things: the right operation applied to the wrong variable / attribute / key '
+                          '(request vs response, query vs forms, name vs filename, start vs end, GET vs HEAD branch), in a branch ordinary use rarely takes')
 ROUNDS = {
     'u': ['environment', 'entry_point', 'history', 'boundary'],
     'v': ['cleanup', 'state', 'size', 'history'],
@@ -65,6 +73,7 @@ ROUNDS = {
     'z': ['types', 'numeric', 'interaction', 'encoding'],
     # commits in disguise
     'q': ['optimisation', 'hardening', 'modernisation', 'feature'],
+    'p': ['exception_safety', 'ordering', 'sentinel', 'sibling_slip'],
 }
 
 TEMPLATE = open(os.path.join(HERE, 'tools', 'seed_agent_prompt.txt')).read()
